@@ -158,7 +158,26 @@ func c06Plan(seed int64, idx int) (c06Run, [][]*c06Ex) {
 			pauses := 0
 			pauseUs := 0
 			switch r.Intn(10) {
-			case 0, 1, 2:
+			case 0:
+				// complete reply, then the server hangs up (as a server with a shorter idle time-out, or one
+				// that serves one query per connection, does): the connection is pooled and dead, the next
+				// exchange on it fails after its write and is retried
+				ex.RMode = "whole-then-fin"
+				a.End = scripted.EndFIN
+				if r.Bool() {
+					ex.RMode = "whole-then-rst"
+					a.End = scripted.EndRST
+				}
+				a.EndDelay = time.Duration(r.Range(0, 4000)) * time.Microsecond
+			case 1:
+				ex.RMode = "whole"
+				if r.P(0.4) {
+					// a complete frame that is shorter than a DNS header (broken server or middle box): the
+					// exchange fails; whatever follows on that connection must not be affected
+					ex.RMode = "short-frame"
+					a.ShortTo = r.Range(1, 11)
+				}
+			case 2:
 				ex.RMode = "whole"
 			case 3, 4:
 				ex.RMode = "lead-1-byte"
@@ -394,6 +413,25 @@ func c06Judge(c *Ctx, run c06Run, plan [][]*c06Ex, snap *scripted.Snapshot, samp
 			}
 			viol("S1:second-query-while-previous-unanswered", fmt.Sprintf("run %d (%s): query %q arrived on connection %d at %v while the previous query %q on it was still unanswered (%s)",
 				run.Idx, run.Variant, q.Name, q.Conn, q.T, q.PrevName, state), w)
+		}
+	}
+	// S2: a reply that is a complete frame shorter than a DNS header cannot be consumed without error,
+	// so nothing may follow on that connection
+	shortFrame := map[string]bool{}
+	for _, seq := range plan {
+		for _, ex := range seq {
+			if ex.RMode == "short-frame" {
+				shortFrame[ex.Name] = true
+			}
+		}
+	}
+	for _, qs := range connQs {
+		for k := 1; k < len(qs); k++ { // connQs is in arrival order
+			q, prev := &snap.Queries[qs[k]], &snap.Queries[qs[k-1]]
+			if shortFrame[prev.Name] {
+				viol("S2:reused-after-undecodable-reply", fmt.Sprintf("run %d (%s): query %q arrived on connection %d after the reply to the previous query %q on it had been a frame shorter than a DNS header - a reply that cannot have been consumed without error",
+					run.Idx, run.Variant, q.Name, q.Conn, prev.Name), c06Witness{Rule: "S2", Query: q, Prev: prev})
+			}
 		}
 	}
 	for cn, qs := range connQs {
